@@ -79,13 +79,13 @@ def plan(quick):
     for w in T.SMALL:
         p.append(("z3", False, "d1", (T.SMALL, w), 4))
     if quick:
-        for w in (1, 2, 3):
-            p += [("z3", False, "d2", ((1, 2, 3), w, False, 1, k, 8), 1) for k in range(8)]
+        for w in (1, 2):
+            p += [("z3", False, "d2", ((1, 2), w, False, 1, "1c", k, 8), 1) for k in range(8)]
         wide, data = WIDE_QUICK, DATA_QUICK
     else:
         for w in (1, 2, 3):
-            p += [("z3", False, "d2", ((1, 2, 3), w, True, 2, k, 32), 1) for k in range(32)]
-        p += [("z3", False, "d2", (T.SMALL, 4, False, 2, k, 32), 1) for k in range(32)]
+            p += [("z3", False, "d2", ((1, 2, 3), w, True, 2, "3c", k, 32), 1) for k in range(32)]
+        p += [("z3", False, "d2", (T.SMALL, 4, False, 2, "3c", k, 32), 1) for k in range(32)]
         wide, data = WIDE_THOROUGH, DATA_THOROUGH
     for w in wide:
         p.append(("z3", False, "wide", (w, MAXW, not quick), 2 if quick else 8))
@@ -96,6 +96,10 @@ def plan(quick):
 
 def run(ctx):
     pl = plan(ctx.quick)
+    # import miasm + z3, create the z3 context and probe the translator once, before the pool forks
+    # (16 workers importing and creating a context each cost more than the enumeration itself)
+    for be in (False, True):
+        T.probe(make_backend("z3", be))
     cov = T.run(ctx, make_backend, pl)
     cov["bounds"] = {"small_widths": list(T.SMALL), "all_valuations_up_to_bits": T.ALL_BITS,
                      "wide_widths": list(WIDE_QUICK if ctx.quick else WIDE_THOROUGH),
